@@ -4,7 +4,7 @@
    original instance's slice it is bit for bit (dtype and shape included; -1 = none), or an exactly scaled
    number for the extra / reward values.  Result codes: 0 = agree. *)
 From Coq Require Import List ZArith Bool Arith PeanoNat.
-From RL4CO Require Import Data.Dataset.
+From RL4CO Require Import Data.Dataset Data.DatasetStore.
 Import ListNotations.
 
 Definition tdz := @td nat Z.
@@ -156,6 +156,100 @@ Definition check_obs_nested (c : ncase) : Z :=
                                | Some t2 => drop_state (dataloader (D_fg dZ) t2 (nc_b c) None) end end
            end in
   result_cmp m (nc_obs c).
+
+(* --- histories of wrappings: the same dataset object wrapped again and again, reads interleaved ------------------ *)
+Inductive hev :=
+| HWrap (extra : list Z)                                  (* w = ds.add_key("extra", extra) *)
+| HWrapPol (table : list Z) (bb : nat)                    (* w = RolloutBaseline.wrap_dataset(ds, env, batch_size=bb), the baseline
+                                                             policy being the row-wise stub with reward table [table] *)
+| HGet (w i : nat)                                        (* wrapper_w[i] *)
+| HPass (w b : nat) (shuffle : option (list nat))         (* DataLoader(wrapper_w, b, ...): Some = the order the sampler produced *)
+| HBase (b : nat) (shuffle : option (list nat)).          (* DataLoader(ds, b, ...) over the base dataset *)
+Inductive hobs :=
+| HOWrap (extra : option (list Z))                        (* the new wrapper's extra values (dataset order); None = raised *)
+| HOItem (it : option (list (nat * Z)))
+| HOBatches (ts : option (list tdz)).
+Record hcase := HC {
+  hc_cls : nat; hc_disc : nat;                             (* discipline 0 = assign (the code), 1 = setdefault *)
+  hc_td : tdz; hc_idkey : nat; hc_kx : nat;
+  hc_evs : list hev; hc_obs : list hobs }.                 (* the observed list stops after the first event that raised *)
+
+Definition ev_of (idkey kx : nat) (e : hev) : @event nat Z :=
+  match e with
+  | HWrap extra => EWrap kx extra
+  | HWrapPol table bb => EWrapPol kx (polB_of idkey table) bb
+  | HGet w i => EGet w i
+  | HPass w b sh => EPass w b sh
+  | HBase b sh => EBasePass b sh
+  end.
+Definition item_td (it : list (nat * Z)) : tdz := mk 1 (map (fun kv => (fst kv, [snd kv])) it).
+Definition hobs_cmp (m : option (@output nat Z)) (o : hobs) : Z :=
+  match m, o with
+  | None, HOWrap None => 0%Z
+  | None, HOItem None => 0%Z
+  | None, HOBatches None => 0%Z
+  | None, _ => 5%Z
+  | Some (OWrapped a), HOWrap (Some b) => if zlist_eqb a b then 0%Z else 12%Z
+  | Some (OItem a), HOItem (Some b) => match td_cmp (item_td a) (item_td b) with 0%Z => 0%Z | c => (20 + c)%Z end
+  | Some (OBatches ms), HOBatches (Some os) => batches_cmp 1%Z ms os
+  | Some _, HOWrap None => 6%Z
+  | Some _, HOItem None => 6%Z
+  | Some _, HOBatches None => 6%Z
+  | Some _, _ => 8%Z                                       (* not the same kind of event *)
+  end.
+Fixpoint trace_cmp (j : Z) (ms : list (option (@output nat Z))) (os : list hobs) : Z :=
+  match ms, os with
+  | [], [] => 0%Z
+  | m :: ms', o :: os' => let c := hobs_cmp m o in
+                          if Z.eqb c 0 then trace_cmp (j + 1)%Z ms' os' else (100000 * j + c)%Z
+  | _, _ => (100000 * j + 7)%Z                             (* one side went on after the other had stopped *)
+  end.
+Definition hev_perm_ok (n : nat) (e : hev) : bool :=
+  match e with
+  | HPass _ _ (Some perm) => (n =? 0) || is_permb perm n
+  | HBase _ (Some perm) => (n =? 0) || is_permb perm n
+  | _ => true
+  end.
+Definition check_hist (c : hcase) : Z :=
+  if negb (td_wfb Nat.eqb (hc_td c)) then 9001%Z
+  else if negb (forallb (hev_perm_ok (bsz (hc_td c))) (hc_evs c)) then 9002%Z
+  else trace_cmp 1%Z
+         (trace Nat.eqb dZ (cls_of (hc_cls c)) (match hc_disc c with 0 => Assign | _ => SetDefault end)
+                (hc_td c) (map (ev_of (hc_idkey c) (hc_kx c)) (hc_evs c)))
+         (hc_obs c).
+
+(* the stub policies do not look at the extra key: the hypothesis pol_ignores_kx of C17_store_assign_rollout_history *)
+Lemma pol_of_ignores_extra idkey kx table it v : idkey <> kx ->
+  pol_of idkey table (aset Nat.eqb kx v it) = pol_of idkey table it.
+Proof.
+  intros H. unfold pol_of, getd. rewrite (alookup_aset_other Nat.eqb Nat.eqb_eq) by congruence. reflexivity.
+Qed.
+
+Example check_hist_selftest :
+  let t := mk 3 [(0, [0; 16; 32]%Z)] in
+  let evs := [HWrap [7; 8; 9]%Z; HPass 0 2 None; HWrap [70; 80; 90]%Z; HPass 1 3 (Some [2; 0; 1]); HGet 0 1; HBase 3 None] in
+  let fresh := [HOWrap (Some [7; 8; 9]%Z);
+                HOBatches (Some [mk 2 [(0, [0; 16]%Z); (5, [7; 8]%Z)]; mk 1 [(0, [32]%Z); (5, [9]%Z)]]);
+                HOWrap (Some [70; 80; 90]%Z);
+                HOBatches (Some [mk 3 [(0, [32; 0; 16]%Z); (5, [90; 70; 80]%Z)]]);
+                HOItem (Some [(0, 16%Z); (5, 8%Z)])] in
+  let stale := [HOWrap (Some [7; 8; 9]%Z);
+                HOBatches (Some [mk 2 [(0, [0; 16]%Z); (5, [7; 8]%Z)]; mk 1 [(0, [32]%Z); (5, [9]%Z)]]);
+                HOWrap (Some [70; 80; 90]%Z);
+                HOBatches (Some [mk 3 [(0, [32; 0; 16]%Z); (5, [9; 7; 8]%Z)]]);
+                HOItem (Some [(0, 16%Z); (5, 8%Z)])] in
+  map check_hist
+    [ HC 0 0 t 0 5 evs (fresh ++ [HOBatches (Some [mk 3 [(0, [0; 16; 32]%Z); (5, [70; 8; 90]%Z)]])]);
+      HC 0 0 t 0 5 evs (stale ++ [HOBatches (Some [mk 3 [(0, [0; 16; 32]%Z); (5, [7; 8; 9]%Z)]])]);
+      HC 0 1 t 0 5 evs (stale ++ [HOBatches (Some [mk 3 [(0, [0; 16; 32]%Z); (5, [7; 8; 9]%Z)]])]);
+      HC 1 0 t 0 5 evs (fresh ++ [HOBatches (Some [mk 3 [(0, [0; 16; 32]%Z)]])]);
+      HC 2 0 t 0 5 [HWrap [7; 8; 9]%Z; HWrap [70; 80; 90]%Z; HPass 0 2 None; HGet 0 0]
+         [HOWrap (Some [7; 8; 9]%Z); HOWrap (Some [70; 80; 90]%Z);
+          HOBatches (Some [mk 2 [(0, [0; 16]%Z); (5, [70; 80]%Z)]; mk 1 [(0, [32]%Z); (5, [90]%Z)]]); HOItem None];
+      HC 0 0 t 0 5 [HWrapPol [3; 4; 5]%Z 2; HGet 0 0; HWrapPol [30; 40; 50]%Z 2; HGet 1 0]
+         [HOWrap (Some [3; 5; 5]%Z); HOItem (Some [(0, 0%Z); (5, 3%Z)]); HOWrap None] ]
+  = [0; 400103; 0; 0; 0; 100012]%Z.
+Proof. vm_compute. reflexivity. Qed.
 
 (* self-test of the comparison functions *)
 Example check_load_selftest :
